@@ -176,6 +176,20 @@ def labeldiff_programs(k):
             yield [u, L.label('A')] + list(body) + [L.label('B')]
 
 
+def shadow_programs():
+    """a transfer whose target NAME is defined both as a constant and as a label (without -c the constant wins, an absolute address): whatever the
+    uncompressed build makes of it, the -c build must not be refused"""
+    def line(text):
+        return dict(k='inst', mn='?', f={}, text=text)
+    xfers = ['j X', 'jal x0, X', 'jal x1, X', 'jal X', 'call X', 'tail X', 'beqz x8, X', 'bnez x9, X', 'beq x8, x0, X', 'bne x0, x9, X', 'bgtz x8, X', 'blt x8, x9, X']
+    for k in (0, 2, 8, 200, 254, 256, 258, 1000, 2046, 2048, 2050, 4000, 4094, 0x1000, 0x7fffe, 0xffffe):
+        for x in xfers:
+            for pad in ([], [line('addi x8, x8, 1')], [line('addi x8, x8, 1')] * 3):
+                yield [L.const('X', str(k))] + pad + [line(x), L.label('X'), line('add x5, x6, x7')]
+                yield [L.label('X')] + pad + [line(x), L.const('X', str(k)), line('add x5, x6, x7')]
+                yield [line(x)] + pad + [L.label('X'), line('add x5, x6, x7'), L.const('X', str(k))]
+
+
 def s2_tasks(tier):
     from mc.props import c03
     ts = [dict(t, src='c03') for t in c03.s2_tasks(tier)]
@@ -184,6 +198,7 @@ def s2_tasks(tier):
     ts += [dict(src='edge', lo=i * 256, hi=(i + 1) * 256) for i in range(n)]
     ts += [dict(src='symbolic', part=i, parts=16) for i in range(16)]
     ts += [dict(src='labeldiff', k=k) for k in range(0, 9)]
+    ts += [dict(src='shadow')]
     ts += [dict(src='nearlabel', part=i, parts=64) for i in range(64)]
     return ts
 
@@ -202,6 +217,8 @@ def s2_programs(task):
         yield _EDGE[task['tier']][task['lo']:task['hi']]
     elif k == 'labeldiff':
         yield from labeldiff_programs(task['k'])
+    elif k == 'shadow':
+        yield from shadow_programs()
     else:
         gen = symbolic_programs() if k == 'symbolic' else near_label_programs()
         for i, p in enumerate(gen):
